@@ -439,10 +439,10 @@ Proof.
     pose proof (pull_def_scs ex fuel (VFun id ps r) st sc []) as HP.
     destruct (pull_def ex fuel (VFun id ps r) st sc []) as [[[st1 sc1] o] sg].
     cbn [fst snd] in HP. subst sc1. destruct o; reflexivity.
-  - destruct (element_type (as_type v)) as [et|]; [|reflexivity]. cbv zeta.
-    set (d := match of_type et with Some d => d | None => VVoid end).
-    pose proof (call_def_scs ex (p_iter pre) [v; d] st sc) as HC.
-    destruct (call_def ex (p_iter pre) [v; d] st sc) as [[st1 sc1] sg].
+  - destruct (element_type (as_type v)) as [et|]; [|reflexivity].
+    destruct (match alloc_default et st with Some ds => ds | None => (VVoid, st) end) as [d st0].
+    pose proof (call_def_scs ex (p_iter pre) [v; d] st0 sc) as HC.
+    destruct (call_def ex (p_iter pre) [v; d] st0 sc) as [[st1 sc1] sg].
     unfold scs in HC; cbn [fst snd] in HC. subst sc1.
     destruct sg; try reflexivity. apply retyped_def_scs.
 Qed.
